@@ -35,6 +35,7 @@ SNext == \/ \E p \in Procs : \E o \in OpSet :
               \/ (UnlinkContent(p) /\ Lab(p, "unlink_content"))
               \/ (StatContent(p) /\ Lab(p, "stat_content"))
               \/ (WalkVisit(p) /\ Lab(p, "walk_visit"))
+              \/ (SymlinkContent(p) /\ Lab(p, "symlink"))
 
 SSpec == SInit /\ [][SNext]_svars
 
